@@ -384,6 +384,8 @@ Result<WorkResult, WorkError>
     {
         Ok(resolutions) =>
         {
+            info.blob.forget_replaced(&resolutions);
+
             if needs_rebuild(&resolutions)
             {
                 rebuild_node(
